@@ -1,0 +1,30 @@
+//go:build verif
+
+package standard
+
+import (
+	"context"
+
+	apiv1 "github.com/attestantio/go-builder-client/api/v1"
+	"github.com/attestantio/go-eth2-client/spec/phase0"
+	"github.com/attestantio/vouch/services/signer"
+	"golang.org/x/sync/semaphore"
+)
+
+// VerifC16EnableRegistrations gives a Service built by NewForVerifC16 what a validator
+// registration round needs: the signer and the (empty) registration caches.
+// Only compiled with the "verif" build tag.
+func (s *Service) VerifC16EnableRegistrations(registrationSigner signer.ValidatorRegistrationSigner) {
+	s.validatorRegistrationSigner = registrationSigner
+	s.latestValidatorRegistrations = make(map[phase0.BLSPubKey]phase0.Root)
+	s.signedValidatorRegistrations = make(map[phase0.Root]*apiv1.SignedValidatorRegistration)
+	s.controlledValidators = make(map[phase0.BLSPubKey]struct{})
+	s.activitySem = semaphore.NewWeighted(1)
+}
+
+// VerifC16SubmitValidatorRegistrations runs one periodic validator registration round in the
+// caller's goroutine (New and the scheduler run it in goroutines of their own, where a panic
+// cannot be recovered).
+func (s *Service) VerifC16SubmitValidatorRegistrations(ctx context.Context) {
+	s.submitValidatorRegistrations(ctx)
+}
